@@ -253,6 +253,7 @@ def pmap(fn, items, workers=None, chunk=None):
     """Run fn(item) over items in forked worker processes (results in order).  fn and items must be picklable;
     each worker is a fresh fork, so pyscript's class-level state does not leak between shards beyond one worker."""
     import multiprocessing as mp
+    from concurrent.futures import ProcessPoolExecutor
     items = list(items)
     if not items:
         return []
@@ -260,8 +261,9 @@ def pmap(fn, items, workers=None, chunk=None):
     if workers <= 1 or len(items) < 4:
         return [fn(i) for i in items]
     ctx = mp.get_context("fork")
-    with ctx.Pool(workers, maxtasksperchild=200) as pool:
-        return pool.map(fn, items, chunksize=chunk or max(1, len(items) // (workers * 4)))
+    # ProcessPoolExecutor (unlike multiprocessing.Pool) raises BrokenProcessPool when a worker dies
+    with ProcessPoolExecutor(max_workers=workers, mp_context=ctx) as ex:
+        return list(ex.map(fn, items, chunksize=chunk or max(1, len(items) // (workers * 4))))
 
 
 # --------------------------------------------------------------------------- known findings
